@@ -345,7 +345,7 @@ func runC16(w *mon.W) {
 				w.Violation(id, fmt.Sprintf("rebase.Read: %v", err), rep)
 			}
 		} else {
-			p = mon.Try(func() { buf := []byte(listing); got = rebase.Parse(buf); scribble(buf) })
+			p = mon.Try(func() { buf := []byte(listing); got = rebase.Parse(buf); unchangedThenScribble(w, id, "rebase.Parse", buf, listing) })
 		}
 		if p != "" {
 			w.Violation(id, fmt.Sprintf("rebase.%s on a well-formed listing (%d records, %d suppliers, %s indent): %s", entry, len(recs), nsup, rep["indent"], p), rep)
